@@ -37,6 +37,7 @@ inductive PeerKind where
   | late (k g m : Nat)
   | nodial (v : Nat)
   | vanish
+  | deaf          -- the same socket with its receiving side shut down from the start: every write fails
 
 inductive CancelKind where
   | never | pre | predeadline
@@ -53,6 +54,7 @@ def parsePeer (s : String) : Option PeerKind :=
     let v ← parseNat v
     if v < 4 then pure (.nodial v) else none
   | ["vanish"] => some .vanish
+  | ["deaf"] => some .deaf
   | _ => none
 
 def parseCancel (s : String) : Option CancelKind :=
@@ -98,7 +100,7 @@ def scenarioEvents (retryMs maxErr : Int) (peer : PeerKind) (cancel : CancelKind
       | .never => some [.dialFail]
       | .deadline ms => if ms ≥ 1000 then some [.dialFail] else none
       | _ => none
-    | .vanish =>
+    | .vanish | .deaf =>
       -- the peer takes the first datagram and goes away; the retransmissions (`conn.Write` calls whose errors the
       -- code ignores) change nothing, no Read completes until the helper closes the conn
       match cancel with
@@ -165,14 +167,15 @@ def c08 (op : String) (args : List String) (impl : String) : Verdict :=
         match s.phase with
         | .returned r =>
           let closed := match peer with | .closed => true | _ => false
-          let vanish := match peer with | .vanish => true | _ => false
+          let vanish := match peer with | .vanish | .deaf => true | _ => false
+          let deaf := match peer with | .deaf => true | _ => false
           let nodial := match peer with | .nodial _ => true | _ => false
           -- what the peer cannot report: nobody is there (closed), or it is gone after the first datagram (vanish)
           let blind := closed || vanish
           let isCtx := match r with | .ctxErr => true | _ => false
           let cls := showResultClass cancel.isDeadline r
           let pkt := match r with | .reply p => showPkt p | _ => "-"
-          let first := if closed && !s.sent.isEmpty then "na" else match s.sent with
+          let first := if (closed || deaf) && !s.sent.isEmpty then "na" else match s.sent with
             | w :: _ => hexOf w
             | [] => "-"
           let verbatim := if blind then "na" else boolStr (s.sent.all (fun x => some x == s.sent.head?))
